@@ -946,6 +946,14 @@ def check_tree(case, tree, w=W_FULL, full=None, counters=None):
             target = page
         return target, unquote(frag), ('#' in url)
 
+    def bad_fragment(p, line, attr, url, frag, target, pcat, tcat, cell, note):
+        owners = case.anchor_owner.get(frag, ())
+        bad('broken_fragment', '{}>{}'.format(pcat, tcat), '{}:{}: {}="{}": no id "{}" in {}{}'.format(p, line, attr, url, frag, target, note),
+            page=pcat, target=tcat, same_page=(target == p), where='operand' if cell == 'instruction' else 'text',
+            # the fragment is the address anchor of an instruction of another disassembly than the target page's
+            fragment_of_other_disassembly=bool(owners) and case.owner.get(target) not in owners,
+            anchor=cfg['anchor'])
+
     for p in sorted(tree.pages):
         wk = tree.pages[p]
         pcat = case.html.get(p, ('unknown', ''))[0]
@@ -972,12 +980,7 @@ def check_tree(case, tree, w=W_FULL, full=None, counters=None):
                     if ids_here is None:
                         bad('fragment_on_asset', what, '{}:{}: {}="{}": fragment on a non-HTML file'.format(p, line, attr, url), page=pcat)
                     elif frag not in ids_here:
-                        owners = case.anchor_owner.get(frag, ())
-                        bad('broken_fragment', '{}>{}'.format(pcat, tcat), '{}:{}: {}="{}": no id "{}" in {}'.format(p, line, attr, url, frag, target),
-                            page=pcat, target=tcat, same_page=(target == p), where='operand' if cell == 'instruction' else 'text',
-                            # the fragment is the address anchor of an instruction of another disassembly than the target page's
-                            fragment_of_other_disassembly=bool(owners) and case.owner.get(target) not in owners,
-                            anchor=cfg['anchor'])
+                        bad_fragment(p, line, attr, url, frag, target, pcat, tcat, cell, '')
                     else:
                         count('{}>{}#'.format(pcat, tcat) if target != p else '{}>self#'.format(pcat))
                 else:
@@ -989,8 +992,7 @@ def check_tree(case, tree, w=W_FULL, full=None, counters=None):
                 # by design a -w run writes only the chosen page kinds; links into the kinds left out must
                 # resolve in the complete tree of the same configuration
                 if has_frag and frag not in {v for v, _ in full.pages[target].ids}:
-                    bad('broken_fragment', '{}>{}'.format(pcat, tcat), '{}:{}: {}="{}": no id "{}" in {} (complete tree)'.format(p, line, attr, url, frag, target),
-                        page=pcat, target=tcat, same_page=False)
+                    bad_fragment(p, line, attr, url, frag, target, pcat, tcat, cell, ' (complete tree of the same configuration)')
                 else:
                     count('to_page_excluded_by_w')
                 continue
@@ -1007,6 +1009,11 @@ def evaluate(cfg, subsets=None, counters=None, want_digest=False):
     runs = 1
     if subsets is None:
         results.append((W_FULL, check_tree(case, full, counters=counters)))
+    elif full.rc:
+        # the complete tree could not be written (reported by the work item of the same configuration
+        # without -w): there is nothing to judge the subsets against
+        if counters is not None:
+            counters['w_subsets_skipped_complete_tree_failed'] += len(subsets)
     else:
         for w in subsets:
             t = run_tree(case, w)
